@@ -59,7 +59,7 @@ Theorem theoremA' (e : env) (ke : keyenv) (m : ms) (t : ty) :
                              = Ok (mkSt ((if above then [v; c0] else [c0; v]) ++ rest) al)
   end.
 Proof.
-  intros Ht Hwf s w v HR. pose proof (denot_complete_inv e ke m t Ht Hwf) as Hc. unfold comp in Hc.
+  intros Ht Hwf s w v HR. pose proof (denot_complete_inv e ke m t Ht Hwf) as Hc. unfold dn_comp in Hc.
   destruct (c_base (t_corr t)).
   - destruct (Hc s w v HR) as [H1 H2]. split; [exact H1|]. intros rest al. exact (H2 rest al).
   - destruct (Hc s w v HR) as [c [sg [H1 [H2 H3]]]]. exists c, sg. split; [exact H1|]. split; [exact H2|].
